@@ -248,11 +248,12 @@ class Verdict:
             self._alarm_keys[key] += 1
             return "alarm"
         self._alarm_keys[key] = 1
-        os.makedirs(os.path.join(VERIF, "replays"), exist_ok=True)
+        rdir = os.environ.get("VERIF_REPLAY_DIR", os.path.join(VERIF, "replays"))
+        os.makedirs(rdir, exist_ok=True)
         blob = json.dumps({"property": self.prop, "key": key, "what": what, "seed": seed(), "case": replay},
                           sort_keys=True, default=str)
         name = "%s_%s.json" % (self.prop, hashlib.sha1(blob.encode()).hexdigest()[:12])
-        path = os.path.join(VERIF, "replays", name)
+        path = os.path.join(rdir, name)
         with open(path, "w") as fh:
             fh.write(blob)
         self.alarms.append((key, path, what))
@@ -270,9 +271,61 @@ class Verdict:
 
 
 def write_evidence(prop, tier, coverage, wall, violations, assumptions=None, level="model_checking"):
-    os.makedirs(os.path.join(VERIF, "evidence"), exist_ok=True)
+    evdir = os.environ.get("VERIF_EVIDENCE_DIR", os.path.join(VERIF, "evidence"))
+    os.makedirs(evdir, exist_ok=True)
     ev = {"property_id": prop, "tier": tier, "seed": seed(), "level": level, "coverage": coverage,
           "assumptions": assumptions or [], "wall_s": round(wall, 2), "violations": int(violations)}
-    with open(os.path.join(VERIF, "evidence", prop + ".json"), "w") as fh:
+    with open(os.path.join(evdir, prop + ".json"), "w") as fh:
         json.dump(ev, fh, indent=1, default=str)
     return ev
+
+
+# --------------------------------------------------------------------------- cfg generation
+
+_TMP = None
+
+
+def tmpdir():
+    global _TMP
+    if _TMP is None:
+        import atexit
+        _TMP = tempfile.mkdtemp(prefix="verif_run_")
+        atexit.register(lambda: shutil.rmtree(_TMP, ignore_errors=True))
+    return _TMP
+
+
+def make_cfg(name, spec=None, init=None, next=None, constants=None, invariants=(), properties=(),
+             constraints=(), action_constraints=(), view=None, postcondition=None):
+    """Write a TLC config file into the run's scratch directory and return its path.
+    constants: dict name -> literal text ("3", "{1,2}", "TRUE") or ("<-", "OperatorName")."""
+    lines = []
+    if spec:
+        lines.append("SPECIFICATION " + spec)
+    if init:
+        lines.append("INIT " + init)
+    if next:
+        lines.append("NEXT " + next)
+    if constants:
+        lines.append("CONSTANTS")
+        for k, v in constants.items():
+            if isinstance(v, tuple):
+                lines.append("  %s <- %s" % (k, v[1]))
+            else:
+                lines.append("  %s = %s" % (k, v))
+    for c in constraints:
+        lines.append("CONSTRAINT " + c)
+    for c in action_constraints:
+        lines.append("ACTION_CONSTRAINT " + c)
+    for i in invariants:
+        lines.append("INVARIANT " + i)
+    for p in properties:
+        lines.append("PROPERTY " + p)
+    if view:
+        lines.append("VIEW " + view)
+    if postcondition:
+        lines.append("POSTCONDITION " + postcondition)
+    lines.append("CHECK_DEADLOCK FALSE")
+    path = os.path.join(tmpdir(), name + ".cfg")
+    with open(path, "w") as fh:
+        fh.write("\n".join(lines) + "\n")
+    return path
